@@ -33,12 +33,16 @@ def streams(tier, rng):
         items.append(('RI32:%d' % s, 'PI32:1', 'int', s))
         for b in (2, 8, 10, 16):
             items.append(('RU32:%d:%d' % (sv, b), 'PU32:1', 'int', sv))
+            if b != 10:      # a signed value emitted as its bit pattern (a sign exists only in base 10) comes back through the signed reader
+                items.append(('RU32:%d:%d' % (sv, b), 'PI32:1', 'int', s))
     for v in ints64 + ints32[:40]:
         sv = wrap(v, 64)
         s = sv - 2**64 if sv >= 2**63 else sv
         items.append(('RI64:%d' % s, 'PI64:1', 'int', s))
         for b in (2, 8, 10, 16):
             items.append(('RU64:%d:%d' % (sv, b), 'PU64:1', 'int', sv))
+            if b != 10:
+                items.append(('RU64:%d:%d' % (sv, b), 'PI64:1', 'int', s))
     for v in range(256):
         s = v - 256 if v >= 128 else v
         items.append(('RI8:%d' % s, 'PI32:1', 'int', s))
